@@ -196,7 +196,9 @@ pub fn run(o: &Opts) -> i32 {
     // 31/32/64/65 top-level pieces, a declared size above 96 GiB
     streams.push(Stream::new("hostile-sizes", 1, move |_i, _rng: &mut Rng, l: &mut Local| {
         let top = wref[30][0];
-        for &(n_words, tail) in &[(1usize, 0usize), (31, 1), (32, 0), (33, 1), (64, 0), (65, 1), (70, 0)] {
+        let tiny = crate::work::bytes::tiny();
+        let plans: &[(usize, usize)] = if tiny { &[(1, 0), (33, 1)] } else { &[(1, 0), (31, 1), (32, 0), (33, 1), (64, 0), (65, 1), (70, 0)] };
+        for &(n_words, tail) in plans {
             let mut s = Vec::new();
             for _ in 0..n_words {
                 s.extend_from_slice(&top);
@@ -205,7 +207,8 @@ pub fn run(o: &Opts) -> i32 {
             for k in 0..tail {
                 s.push(7 + k as u8);
             }
-            for total in [MAX_INPUT, MAX_INPUT + 1, MAX_INPUT - 1, (96u64 << 30) + 1] {
+            let totals: &[u64] = if tiny { &[MAX_INPUT, MAX_INPUT + 1] } else { &[MAX_INPUT, MAX_INPUT + 1, MAX_INPUT - 1, (96u64 << 30) + 1] };
+            for &total in totals {
                 let prefix = total - s.len() as u64;
                 check_case(l, prefix, &s, None, "hostile");
                 check_case(l, prefix, &s, Some(total.min(MAX_INPUT)), "hostile-declared");
